@@ -38,8 +38,9 @@ Definition key (st : state) : list Z :=
   ++ flat_map (fun w => wr_key (wr st w)) (seq 0 (nwr st))
   ++ (nz (length (backlog st)) :: map nz (backlog st))
   ++ (nz (length (delivered st)) :: map nz (delivered st))
-  ++ (nz (length (closing st)) :: map nz (closing st))
-  ++ map nz (aclosed st).
+  ++ map nz (closing st).
+(* (the ghost lists aclosed / enq_log / recv_log are not part of the key: they record only the ORDER in
+   which things happened, which no later transition or observation depends on) *)
 
 Fixpoint zlist_eqb (a b : list Z) : bool :=
   match a, b with
@@ -118,21 +119,31 @@ Definition apply_obs (st : state) (o : obs) : list state :=
 Definition closers_done (st : state) : bool :=
   forallb (fun k => is_cdone (cl_of st k)) (seq 0 (ncl st)).
 
-(* the harness issues listener.Close calls one after the other and records them on return *)
-Definition obs_step (sts : list state) (o : obs) : list state :=
-  match o with
-  | OLClose => filter closers_done (close_set (flat_map (fun st => apply_obs st o) sts))
-  | _ => close_set (flat_map (fun st => apply_obs st o) sts)
-  end.
+(* the harness issues listener.Close calls one after the other and records them on return.
+   `quiet` = keep only the states in which no unobservable step is enabled any more (the harness waits
+   for quiescence after every operation): a fast first pass.  A history rejected by the quiet pass is
+   re-run with quiet = false, i.e. tolerating an implementation that lags behind at every observation,
+   and only that verdict counts. *)
+Definition obs_step (quiet : bool) (sts : list state) (o : obs) : list state :=
+  let r := match o with
+           | OLClose => filter closers_done (close_set (flat_map (fun st => apply_obs st o) sts))
+           | _ => close_set (flat_map (fun st => apply_obs st o) sts)
+           end in
+  if quiet then filter settled r else r.
 
 (* index of the first observation that no state of the set accepts *)
-Fixpoint run_obs (sts : list state) (os : list obs) (n : nat) : option nat :=
+Fixpoint run_obs_q (quiet : bool) (sts : list state) (os : list obs) (n : nat) : option nat :=
   match os with
   | [] => None
-  | o :: r => match obs_step sts o with
+  | o :: r => match obs_step quiet sts o with
               | [] => Some n
-              | sts' => run_obs sts' r (S n)
+              | sts' => run_obs_q quiet sts' r (S n)
               end
+  end.
+Definition run_obs (sts : list state) (os : list obs) (n : nat) : option nat :=
+  match run_obs_q true sts os n with
+  | None => None
+  | Some _ => run_obs_q false sts os n
   end.
 
 (* ---- Read/Write traces ---- *)
